@@ -87,18 +87,24 @@ impl<'a, P> State<'a, P> {
     where
         T: CustomState<'a> + TidAble<'a>,
     {
-        #[derive(better_any::Tid)]
-        struct Marker<T>(PhantomData<fn() -> T>);
-        impl<'a, T: TidAble<'a>> CustomState<'a> for Marker<T> {}
-
-        let registry_with_t = self.find_mut::<T>()?;
-        registry_with_t.insert(Marker::<T>(PhantomData));
-        let mut t = registry_with_t.remove::<T>()?;
+        // Remember how many scopes lie between this one and the scope `T` is taken from, so that
+        // it is put back there even if another instance of `T` is held at the same time.
+        let mut depth = 0;
+        let mut registry: &StateRegistry<'a> = &self.registry;
+        while !registry.contains_at_top::<T>() {
+            registry = registry.parent().ok_or_else(StateError::not_found::<T>)?;
+            depth += 1;
+        }
+        let mut t = self.remove::<T>()?;
         let result = f(&mut t, self);
 
-        let state_with_t = self.find_mut::<Marker<T>>()?;
-        state_with_t.insert(t);
-        state_with_t.remove::<Marker<T>>()?;
+        let mut registry: &mut StateRegistry<'a> = &mut self.registry;
+        for _ in 0..depth {
+            registry = registry
+                .parent_mut()
+                .ok_or_else(StateError::not_found::<T>)?;
+        }
+        registry.insert(t);
 
         result
     }
